@@ -205,11 +205,53 @@ def _check_writer(wname, model):
     # the text is a function of the model as it is when transform() runs
     if not out and outputs and sh.size(model) <= 4:
         out.extend(_writer_histories(W, wname, model, path, outputs[0]))
+    if not out and outputs and (sh.size(model) <= 2 or model[1]) and sh.size(model) <= 4:
+        out.extend(_path_histories(W, wname, model, outputs[0]))
     try:
         os.remove(path)
     except OSError:
         pass
     return out
+
+
+def _path_histories(W, wname, model, text0):
+    """The text does not depend on where it is written: a bare relative file name, a relative path
+    with a folder, names with blanks and non-ASCII characters, and destinations that already exist
+    (same text with CR LF line ends, same text followed by more, empty).  text0: bytes/str written to
+    the ordinary scratch path."""
+    import shutil
+    base = engine.tmppath('paths_%s' % wname)
+    os.makedirs(os.path.join(base, 'sub dir'), exist_ok=True)
+    old_cwd = os.getcwd()
+    raw0 = text0 if isinstance(text0, bytes) else text0.encode('utf8')
+    shapes = [('bare relative name', 'model.' + wname, None),
+              ('bare relative name with a blank', 'my model.' + wname, None),
+              ('relative path with a folder', os.path.join('sub dir', 'm\u00fcller \u65e5.' + wname), None),
+              ('absolute path with blanks and non-ASCII characters', os.path.join(base, 'sub dir', 'a b \u00e9.' + wname), None),
+              ('existing file: same text with CR LF line ends', 'exists1.' + wname, raw0.replace(b'\n', b'\r\n')),
+              ('existing file: same text followed by more', 'exists2.' + wname, raw0 + b'\nleft over from an earlier, longer model\n'),
+              ('existing file: same text with CR line ends', 'exists3.' + wname, raw0.replace(b'\n', b'\r')),
+              ('existing file: empty', 'exists4.' + wname, b'')]
+    try:
+        os.chdir(base)
+        for what, p, pre in shapes:
+            if pre is not None:
+                with open(p, 'wb') as fh:
+                    fh.write(pre)
+            try:
+                ret = W(p, bd.build(model)).transform()
+                engine.tick()
+            except Exception as exc:  # noqa: BLE001
+                return [Fail('destination-dependent:raises:%s:%s' % (wname, type(exc).__name__), {'destination': what, 'msg': str(exc)[:200]})]
+            data, same = _content(p, ret)
+            if not same:
+                return [Fail('return!=file:' + wname, {'destination': what})]
+            if data != text0:
+                return [Fail('destination-dependent:' + wname, {'destination': what})]
+    finally:
+        os.chdir(old_cwd)
+        shutil.rmtree(base, ignore_errors=True)
+    return []
 
 
 def _writer_histories(W, wname, model, path, text0):
